@@ -159,6 +159,19 @@ fn replay(path: &str) -> i32 {
                 }
             }
         }
+        Some("mass_sweep") => {
+            let (seed, n, tied) = (doc["seed"].as_u64().unwrap_or(0), doc["n"].as_u64().unwrap_or(0) as usize, doc["tied"].as_bool().unwrap_or(false));
+            match util::catch(|| extra::mass_sweep::<bourse_book::OrderBook<5>>(seed, n, tied)).unwrap_or_else(|p| Err(("panic_in_sweep".into(), p))) {
+                Err((k, d)) => {
+                    println!("REPRODUCED property={} {}: {}", doc["property"].as_str().unwrap_or("?"), k, d);
+                    1
+                }
+                Ok(_) => {
+                    println!("NOT-REPRODUCED");
+                    0
+                }
+            }
+        }
         Some("c02_views_only") => {
             let h: ops::History = serde_json::from_value(doc["history"].clone()).expect("history");
             match checks_book::replay_views_only(&h) {
